@@ -14,7 +14,7 @@ impl Prop for C08 {
 
     fn rule() -> String {
         "Inputs: (i) every byte string over {0,1} up to length 13 (quick) / 18 (thorough) and over {0,1,2} up to length 8 / 11, \
-         (ii) the repository's test files, (iii) random structured inputs (runs, periodic data with periods around the 4096 window edge, \
+         (ii) the repository's test files and a fixed list of boundary inputs (exact match lengths 3..4097, repeats exactly 4094..4098 bytes back, constant runs of 0xFFFF..0x10001 and of 16 MiB-1 / 16 MiB-2 bytes), (iii) random structured inputs (runs, periodic data with periods around the 4096 window edge, \
          self-similar data with chosen copy distances/lengths around 1,2,18,19,4095..4097, incompressible data, lengths around the 8-token and \
          18-byte boundaries; up to 20 KiB quick / 300 KiB thorough). Oracle: compress is Ok; an independent strict LZ10 reader accepts the output \
          (type 0x10, 24-bit LE length = input length, references 3..=18 long with 1 <= disp <= 4096 and disp <= bytes produced, exact termination, \
@@ -25,7 +25,7 @@ impl Prop for C08 {
     fn assumptions() -> Vec<String> {
         vec![
             "the reference LZ10 reader/expander in harness/src/refimpl/reflz.rs is the format definition (written from the GBATEK description, independent of mila and nintendo-lz)".into(),
-            "inputs are bounded by 300 KiB; the statement's bound of 16 MiB is not approached (compression is quadratic in the window)".into(),
+            "random inputs are bounded by 300 KiB; the statement's bound of 16 MiB is approached only by constant runs (16 MiB-1 and 16 MiB-2 bytes)".into(),
         ]
     }
     fn both_builds() -> bool {
@@ -38,6 +38,12 @@ impl Prop for C08 {
         lz_input(tier.pick(20_000, 300_000)).prop_map(LzInput::Spec).boxed()
     }
     fn enumerate(tier: Tier, shard: u64, nshards: u64, f: &mut dyn FnMut(LzInput) -> bool) {
+        // the boundary inputs of C09 (exact match lengths, window-edge repeats, 16 MiB - 1 runs) apply to LZ10 as well
+        for (i, c) in super::c09::boundary_inputs(tier).into_iter().enumerate() {
+            if i as u64 % nshards == shard && !f(c) {
+                return;
+            }
+        }
         enumerate_small(tier.pick(13, 18), tier.pick(8, 11), shard, nshards, f)
     }
     fn exhaustive_note(tier: Tier) -> Option<String> {
